@@ -68,8 +68,13 @@ OutOfRange(w, h) == w < MinDim \/ w > MaxDim \/ h < MinDim \/ h > MaxDim
 \* ---- operations ---------------------------------------------------------
 Setters == {"SetPageSettings", "SetPageSize", "SetCustomPageSize", "SetPageOrientation", "SetPageMargins",
             "SetHeaderFooterDistance", "SetGutterWidth", "SetDocGrid", "ClearDocGrid"}
+\* SetDefaultPageSettings = SetPageSettings(DefaultPageSettings()): the documented defaults, grid included
+Defaulter == {"SetDefaultPageSettings"}
 ReadOnly == {"GetPageSettings", "Reopen"}
-OpNamesAll == Setters \cup ReadOnly
+\* calls on the same section element that name no page setting at all
+Bystanders == {"AddHeader", "AddFooter", "SetDifferentFirstPage", "AddParagraph"}
+OpNamesAll == Setters \cup Defaulter \cup ReadOnly \cup Bystanders
+DefaultSt == [InitSt EXCEPT !.gt = "lines", !.gp = 312, !.gc = 0]
 
 \* class of the arguments (part of a witness signature; also used to select pools)
 ArgClass(o) ==
@@ -127,6 +132,7 @@ Named(o) ==
     [] o.op = "SetGutterWidth" -> {"gut"}
     [] o.op = "SetDocGrid" -> GridFields
     [] o.op = "ClearDocGrid" -> GridFields
+    [] o.op = "SetDefaultPageSettings" -> Fields
     [] OTHER -> {}
 
 \* state after the call succeeded (one explicit definition per operation)
@@ -148,6 +154,7 @@ Apply(s, o) ==
     [] o.op = "SetGutterWidth" -> [s EXCEPT !.gut = o.gut]
     [] o.op = "SetDocGrid" -> [s EXCEPT !.gt = o.gt, !.gp = o.gp, !.gc = o.gc]
     [] o.op = "ClearDocGrid" -> [s EXCEPT !.gt = "none", !.gp = 0, !.gc = 0]
+    [] o.op = "SetDefaultPageSettings" -> DefaultSt
     [] OTHER -> s
 
 \* the reference machine: a rejected call changes nothing.  acc = the call was accepted
@@ -159,13 +166,14 @@ Ret(s, o) == IF Rejected(s, o) THEN "err" ELSE IF Lenient(s, o) THEN "any" ELSE 
 \* ---- the statement "most recent call that named it, defaults otherwise" ----
 \* value a successful call gives to a field it names (independent of Apply)
 Given(o, f) ==
-  CASE f \in SizeFields ->
+  CASE o.op = "SetDefaultPageSettings" -> IF f \in GridFields THEN DefaultSt[f] ELSE InitSt[f]
+    [] f \in SizeFields ->
          LET z == IF o.op = "SetCustomPageSize" THEN SizeOf("Custom", o.w, o.h)
                   ELSE IF o.op = "SetPageSize" THEN SizeOf(o.n, 0, 0) ELSE SizeOf(o.n, o.w, o.h)
          IN z[f]
     [] f \in GridFields /\ o.op = "ClearDocGrid" -> IF f = "gt" THEN "none" ELSE 0
     [] OTHER -> o[f]
-MostRecent(sh, o) == [f \in Fields |-> IF f \in Named(o) THEN Given(o, f) ELSE sh[f]]
+MostRecent(sh, o) == LET nm == Named(o) IN [f \in Fields |-> IF f \in nm THEN Given(o, f) ELSE sh[f]]
 
 \* ---- classes of states (part of a witness signature) ----------------------
 SizeClass(s) ==
